@@ -410,7 +410,8 @@ def _container(r):
 def _rule_text(r, bad):
     if r.random() < bad:
         return r.choice(["a { color: red", "{ }", "a,, b { }", "un|declared { }", "@media { }", "@page :bogus { }", "a { } b { }", "@import;", '@charset utf-8;', "@namespace;", "", "@top-left { content: 'x' }"])
-    kind = r.choice(G.KINDS)
+    # (the kinds the ordering invariants are about - and the ones allowed anywhere between them - come up more often)
+    kind = r.choice(G.KINDS + ["import", "import", "namespace", "namespace", "unknown", "unknown", "comment", "charset"])
     if kind == "import":
         return G.import_rule(r, hrefs=("a.css", "b.css"))
     return G.rule(r, kind)
@@ -435,7 +436,7 @@ def gen_op(r, w, i):
         op = {"op": k, "c": _container(r), "text": _rule_text(r, bad)}
         if k == "insert":
             op["index"] = r.randrange(-1, 8)
-            op["inorder"] = r.random() < 0.25
+            op["inorder"] = r.random() < 0.15
         return op
     if k == "move":
         op = {"op": r.choice(["insert", "add"]), "c": _container(r), "handle": r.randrange(0, 8)}
